@@ -26,7 +26,7 @@ META = {
               "store= callable -> recording dict", "compute(): every stage class replaced by a recorder returning symbolic columns (wiring clause only)"],
     "assumptions": ["REAL mode", "preconditions of the statement: 0 < cos(theta_TrV), cos(theta_NV) <= 1; exit probabilities in (0,1]; effective Cherenkov cosines in (0,1] (target mode takes tan(arccos c)); spec_norm*spec_weights_sum = 1 (C12), spec_norm > 0; mcnorm > 0; decay lengths >= 0"],
 }
-LEDGER = {"quick": 1000, "thorough": 2500}
+LEDGER = {"quick": 1440, "thorough": 2500}
 
 
 def _ns(extra=None):
@@ -73,7 +73,16 @@ def diffuse_run(N, costheta_scalar=False):
                 C.assume(_R(f"cosCh{i}") >= -1, _R(f"cosCh{i}") <= 1)
         if costheta_scalar:
             C.assume(cosc.t >= -1, cosc.t <= 1)
+        snap = {n: [SV.of(e).term() for e in a.a] for n, a in (("triggers", trig), ("tauexitprob", pex))}
+        trig.tag, pex.tag = "triggers", "tauexitprob"
+        if not costheta_scalar:
+            snap["costheta"] = [SV.of(e).term() for e in cosc.a]
+            cosc.tag = "costheta"
+        ev0 = len(C.events)
         mc, geo, npass, unc = g.mcintegral(trig, cosc, pex, thr, sn, sw)
+        mutated = [e for e in C.events[ev0:] if e[0] == "mutate-input"]
+        unchanged = all(all(SV.of(e).term().eq(t0) for e, t0 in zip(a.a, snap[n])) for n, a in (("triggers", trig), ("tauexitprob", pex)) + (() if costheta_scalar else (("costheta", cosc),)))
+        mc_r, geo_r, npass_r, _ = g.mcintegral(trig, cosc, pex, thr, sn, sw)
         mc2, geo2, npass2, _ = g.mcintegral(trig, cosc, pex, thr2, sn, sw)
         # reference estimator from the columns
         ref, refgeo, refn = z3.RealVal(0), z3.RealVal(0), z3.RealVal(0)
@@ -96,6 +105,9 @@ def diffuse_run(N, costheta_scalar=False):
             "non-increasing in threshold": z3.Implies(thr.t <= thr2.t, SV.of(mc2).term() <= SV.of(mc).term()),
             "geometry-only independent of threshold": SV.of(geo).term() == SV.of(geo2).term(),
             "integral >= 0": SV.of(mc).term() >= 0,
+            "the per-event input arrays are not modified by the call": z3.BoolVal(not mutated and unchanged),
+            "a repeated call with the same arrays returns the same values": z3.And(SV.of(mc_r).term() == SV.of(mc).term(), SV.of(geo_r).term() == SV.of(geo).term(),
+                                                                                   SV.of(npass_r).term() == SV.of(npass).term()),
         }
         # permutation invariance (reverse and rotate the thrown events)
         if N >= 2:
@@ -168,7 +180,17 @@ def target_run(N, method, sun_moon):
         def store(names, cols):
             stored.update(dict(zip(names, cols)))
 
+        snapL = [SV.of(e).term() for e in g.losPathLen.a]
+        snapI = {n: [SV.of(e).term() for e in a.a] for n, a in (("triggers", trig), ("costhetaChEff", cosc), ("tauexitprob", pex), ("lenDec", lenDec))}
+        for n, a in (("triggers", trig), ("costhetaChEff", cosc), ("tauexitprob", pex), ("lenDec", lenDec)):
+            a.tag = n
+        ev0 = len(C.events)
         mc, geo, npass, unc = g.mcintegral(trig, cosc, pex, thr, sn, sw, lenDec=lenDec, method=method, store=store)
+        ts_first = list(g.too_source.calls)
+        mutated = [e for e in C.events[ev0:] if e[0] == "mutate-input"]
+        unchanged = all(all(SV.of(e).term().eq(t0) for e, t0 in zip(a.a, snapI[n])) for n, a in (("triggers", trig), ("costhetaChEff", cosc), ("tauexitprob", pex), ("lenDec", lenDec)))
+        geom_same = all(SV.of(e).term().eq(t0) for e, t0 in zip(g.losPathLen.a, snapL))
+        mc_r, geo_r, npass_r, _ = g.mcintegral(trig, cosc, pex, thr, sn, sw, lenDec=lenDec, method=method)
         ref, refgeo, refn = z3.RealVal(0), z3.RealVal(0), z3.RealVal(0)
         contribs = []
         for i in kept:
@@ -192,9 +214,13 @@ def target_run(N, method, sun_moon):
             "integral <= 0.826 * geometry-only": SV.of(mc).term() <= core.rv(BSHR) * SV.of(geo).term(),
             f"per-event column stored as {col} only": z3.BoolVal(list(stored) == [col] and len(stored[col]) == len(kept)),
         }
+        claims["the per-event input arrays are not modified by the call"] = z3.BoolVal(not mutated and unchanged)
+        claims["the geometry's stored path lengths are not modified by the call"] = z3.BoolVal(geom_same)
+        claims["a repeated call on the same geometry returns the same values"] = z3.And(SV.of(mc_r).term() == SV.of(mc).term(), SV.of(geo_r).term() == SV.of(geo).term(),
+                                                                                        SV.of(npass_r).term() == SV.of(npass).term())
         if kept:
             claims["stored per-event column == per-event contributions"] = z3.And(*[SV.of(stored[col][k]).term() == contribs[k] for k in range(len(kept))]) if col in stored else z3.BoolVal(False)
-        ts = g.too_source.calls
+        ts = ts_first
         if method == "Optical" and sun_moon:
             ok = len(ts) == 1 and len(ts[0]) == len(kept) and all(SV.of(ts[0][k]).term().eq(_R(f"t{i}")) for k, i in enumerate(kept))
             claims["dark-sky cut evaluated once, on exactly the kept event times"] = z3.BoolVal(bool(ok))
@@ -341,9 +367,147 @@ def _close(a, b, tol=1e-9):
     return abs(a - b) <= tol * (abs(a) + abs(b)) + 1e-12
 
 
+def _replay_sequences():
+    """Real code, both modes: two consecutive mcintegral calls with the same arrays, permuted
+    events, input preservation; each compared with an independent numpy estimator."""
+    import numpy as np
+
+    from nuspacesim.simulation.geometry.region_geometry import RegionGeom, RegionGeomToO
+
+    rng = np.random.default_rng(7)
+    N = 40
+    bad = []
+    # ---- diffuse
+    g = object.__new__(RegionGeom)
+    g.costhetaTrSubV, g.costhetaTrSubN, g.costhetaNSubV = rng.uniform(0.95, 1, N), rng.uniform(-0.2, 1, N), rng.uniform(0.05, 1, N)
+    g.betaTrSubN = rng.uniform(0, 60, N)
+    g.event_mask = np.logical_and(g.costhetaTrSubN >= 0, g.betaTrSubN < 42)
+    g.mcnorm = 3.7
+    n = int(g.event_mask.sum())
+    trig, cosc, pex = rng.uniform(0, 5, n), rng.uniform(0.9, 1, n), rng.uniform(0.01, 1, n)
+
+    def ref_d(thr, tr=trig, cc=cosc, px=pex, gg=g):
+        w = (gg.costhetaTrSubN / gg.costhetaNSubV / gg.costhetaTrSubV)[gg.event_mask]
+        inc = gg.costhetaTrSubV[gg.event_mask] >= cc
+        return gg.mcnorm / len(gg.betaTrSubN) * np.sum(w * 0.826 * px * inc * (tr >= thr)), gg.mcnorm / len(gg.betaTrSubN) * np.sum(w * inc)
+
+    keep = (trig.copy(), cosc.copy(), pex.copy())
+    with np.errstate(all="ignore"):
+        r1 = g.mcintegral(trig, cosc, pex, 2.0, 1.0, 1.0)
+        r2 = g.mcintegral(trig, cosc, pex, 2.0, 1.0, 1.0)
+        r3 = g.mcintegral(trig, cosc, pex, 1.0, 1.0, 1.0)
+    e1, eg = ref_d(2.0, *keep)
+    if not all(np.array_equal(a, b) for a, b in zip(keep, (trig, cosc, pex))):
+        bad.append("diffuse mcintegral modifies its input arrays")
+    if abs(r1[0] - e1) > 1e-9 * abs(e1) or abs(r1[1] - eg) > 1e-9 * abs(eg):
+        bad.append(f"diffuse: first call {r1[0]} vs reference {e1}")
+    if abs(r2[0] - r1[0]) > 1e-12 * abs(r1[0]) or r2[2] != r1[2]:
+        bad.append(f"diffuse: second call with the same arrays gives {r2[0]} instead of {r1[0]}")
+    if r3[0] < r1[0] * (1 - 1e-12):
+        bad.append(f"diffuse: integral rises from {r3[0]} (threshold 1) to {r1[0]} (threshold 2)")
+    # permutation
+    perm = rng.permutation(N)
+    g2 = object.__new__(RegionGeom)
+    for a in ("costhetaTrSubV", "costhetaTrSubN", "costhetaNSubV", "betaTrSubN"):
+        setattr(g2, a, getattr(g, a)[perm])
+    g2.event_mask = g.event_mask[perm]
+    g2.mcnorm = g.mcnorm
+    idx = np.cumsum(g.event_mask) - 1
+    pv = idx[perm][g.event_mask[perm]]
+    with np.errstate(all="ignore"):
+        rp = g2.mcintegral(keep[0][pv].copy(), keep[1][pv].copy(), keep[2][pv].copy(), 2.0, 1.0, 1.0)
+    if abs(rp[0] - e1) > 1e-9 * abs(e1):
+        bad.append(f"diffuse: permuted events give {rp[0]} instead of {e1}")
+    # ---- target
+    for method in ("Optical", "Radio"):
+        t = object.__new__(RegionGeomToO)
+        M = 30
+        t.times = np.arange(M + 5)
+        t.losPathLen = rng.uniform(100, 2000, M)
+        t.sun_moon_cut = False
+        L0 = t.losPathLen.copy()
+        trig, cosc, pex, ld = rng.uniform(0, 5, M), rng.uniform(0.99, 1, M), rng.uniform(0.01, 1, M), rng.uniform(0, 1500, M)
+        keep = (trig.copy(), cosc.copy(), pex.copy(), ld.copy())
+        with np.errstate(all="ignore"):
+            a1 = t.mcintegral(trig, cosc, pex, 2.0, 1.0, 1.0, lenDec=ld, method=method)
+            a2 = t.mcintegral(trig, cosc, pex, 2.0, 1.0, 1.0, lenDec=ld, method=method)
+        area = np.where(L0 - keep[3] > 0, np.pi * (L0 - keep[3]) ** 2 * np.tan(np.arccos(keep[1])) ** 2, 0.0)
+        e = np.sum(area * 0.826 * keep[2] * (keep[0] >= 2.0)) / len(t.times)
+        if not np.array_equal(t.losPathLen, L0):
+            bad.append(f"target ({method}): mcintegral modifies the geometry's stored path lengths")
+        if not all(np.array_equal(x, y) for x, y in zip(keep, (trig, cosc, pex, ld))):
+            bad.append(f"target ({method}): mcintegral modifies its input arrays")
+        if abs(a1[0] - e) > 1e-9 * abs(e):
+            bad.append(f"target ({method}): first call {a1[0]} vs reference {e}")
+        if abs(a2[0] - a1[0]) > 1e-12 * abs(a1[0]) or abs(a2[1] - a1[1]) > 1e-12 * abs(a1[1]):
+            bad.append(f"target ({method}): second call gives {a2[0]} / {a2[1]} instead of {a1[0]} / {a1[1]}")
+    return bad
+
+
+def _replay_wiring():
+    """Real compute() runs (synchronous dask): header keywords vs the estimator recomputed from the stored columns."""
+    import sys
+    import warnings
+
+    import dask
+    import numpy as np
+
+    import nuspacesim  # noqa
+    from nuspacesim.config import NssConfig
+
+    dask.config.set(scheduler="synchronous")
+    comp = sys.modules["nuspacesim.compute"]
+    bad = []
+    for mode, area, thr in (("Target", 10.0, 3.0), ("Diffuse", 2.5, 10.0)):
+        cfg = NssConfig()
+        cfg.simulation.mode = mode
+        cfg.simulation.thrown_events = 400
+        cfg.detector.optical.telescope_effective_area = area
+        cfg.detector.optical.photo_electron_threshold = thr
+        cfg.detector.radio.snr_threshold = 1e-3
+        cfg.detector.sun_moon.sun_moon_cuts = False
+        np.random.seed(5)
+        with warnings.catch_warnings(), np.errstate(all="ignore"):
+            warnings.simplefilter("ignore")
+            t = comp.compute(cfg)
+        if len(t) == 0:
+            continue
+        N = cfg.simulation.thrown_events
+        pex = np.asarray(t["tauExitProb"])
+        if mode == "Target":
+            L, l = np.asarray(t["path_len"]), np.asarray(t["lenDec"])
+            for key, gkey, trigcol, coscol, th in (("OMCINT", "OMCINTGO", "numPEs", "costhetaChEff", thr), ("RMCINT", "RMCINTGO", None, None, 1e-3)):
+                if coscol is None:
+                    cc = np.full(len(t), np.cos(cfg.simulation.max_cherenkov_angle))
+                else:
+                    cc = np.asarray(t[coscol])
+                area_ = np.where(L - l > 0, np.pi * (L - l) ** 2 * np.tan(np.arccos(cc)) ** 2, 0.0)
+                geo = area_.sum() / N
+                got = t.meta[gkey][0]
+                if abs(got - geo) > 1e-6 * abs(geo):
+                    bad.append(f"{mode}: header {gkey} = {got} but the stored columns give {geo}")
+                if trigcol is not None:
+                    e = np.sum(area_ * 0.826 * pex * (np.asarray(t[trigcol]) >= th)) / N
+                    if abs(t.meta[key][0] - e) > 1e-6 * abs(e) + 1e-300:
+                        bad.append(f"{mode}: header {key} = {t.meta[key][0]} but the stored columns give {e}")
+    return bad
+
+
 def replay(v):
     m = v.get("model") or {}
     job, ob = v.get("job", ""), v["obligation"]
+    seq_words = ("not modified", "repeated call", "permutation invariant", "non-increasing", "geometry's stored")
+    if any(w in ob for w in seq_words) or job.startswith("target("):
+        bad = _replay_sequences()
+        if bad:
+            return {"reproduced": True, "key": "mcintegral: " + bad[0][:80], "detail": "; ".join(bad)}
+        if any(w in ob for w in seq_words):
+            return {"reproduced": False, "key": None, "detail": "real call sequences satisfy the predicate"}
+    if job.startswith("wiring("):
+        bad = _replay_wiring()
+        if bad:
+            return {"reproduced": True, "key": "compute(): header keywords do not follow from the stored columns", "detail": "; ".join(bad)}
+        return {"reproduced": False, "key": None, "detail": "real compute() runs: header keywords follow from the stored columns"}
     if job.startswith("diffuse"):
         N = int(job.split("N=")[1].split(",")[0])
         scalar = "scalar" in job
@@ -359,8 +523,6 @@ def replay(v):
             bad = f"passing count {n}, reference {refn}"
         elif "<= 0.826" in ob and mc > 0.826 * geo * (1 + 1e-9) + 1e-12:
             bad = f"integral {mc} exceeds 0.826*geo {0.826*geo}"
-        elif "non-increasing" in ob and m.get("thr", 0) <= m.get("thr2", 0) and mc2 > mc * (1 + 1e-9) + 1e-12:
-            bad = f"integral rose from {mc} to {mc2} when the threshold rose"
         elif "integral >= 0" in ob and mc < -1e-12:
             bad = f"negative integral {mc}"
         if bad:
